@@ -29,7 +29,7 @@ func scanGuardIdx(c *core.Ctx) []ob {
 		if fd.Body == nil || fileIsTestSupport(c.Program, fd.Pos()) || inExamples(pk) {
 			return
 		}
-		info := pk.TypesInfo
+		_ = pk.TypesInfo
 		fkey := core.FuncKey(pk, fd)
 		ast.Inspect(fd.Body, func(x ast.Node) bool {
 			is, ok := x.(*ast.IfStmt)
@@ -52,9 +52,6 @@ func scanGuardIdx(c *core.Ctx) []ob {
 				ix, ok := unparen(el).(*ast.IndexExpr)
 				if el == nil || !ok {
 					return true
-				}
-				if _, isMap := info.TypeOf(ix.X).Underlying().(*types.Map); isMap {
-					return true // a key looked up is not a position
 				}
 				b := exprString(ix.X)
 				if tested[b] == nil {
@@ -668,7 +665,10 @@ func scanOutLevel1(c *core.Ctx) []ob {
 						hasOut, hasLv := false, false
 						for _, a := range v.Args {
 							if rid := rootIdent(a); rid != nil && info.Uses[rid] == types.Object(outP) {
-								hasOut = true // opOut, opOut[i], opOut.El()
+								// opOut, opOut[i], opOut.El(): the element as a whole, not one of its polynomials
+								if t := info.TypeOf(a); t != nil && isMetaCarrier(t) && !strings.HasSuffix(t.String(), "ring.Poly") {
+									hasOut = true
+								}
 							}
 							if aid, ok := unparen(a).(*ast.Ident); ok && info.Uses[aid] == lv {
 								hasLv = true
